@@ -7,7 +7,15 @@ def text_edit(old, new):
     def edit(src):
         return src.replace(old, new, 1) if old in src else None
     return edit
+O_ = 'src/pharmpy/model/external/nonmem/records/omega_record.py'
 MUTANTS = [
+    Mutant('des_snapshot_hoisted', 'src/pharmpy/model/statements.py', text_edit("            for term in terms:\n                assert isinstance(term, sympy.Expr)\n                from_comp = None", "            cs = CompartmentalSystem(cb)\n            for term in terms:\n                assert isinstance(term, sympy.Expr)\n                from_comp = None").__call__ and (lambda src: (lambda a: a.replace("                    cs = CompartmentalSystem(cb)\n                    current_flow", "                    current_flow", 1) if a else None)(text_edit("            for term in terms:\n                assert isinstance(term, sympy.Expr)\n                from_comp = None", "            cs = CompartmentalSystem(cb)\n            for term in terms:\n                assert isinstance(term, sympy.Expr)\n                from_comp = None")(src))), 'A6', 'snapshot taken once per compartment'),
+    Mutant('omega_sd_branches_swapped', O_, text_edit("                                    if sd:\n                                        A[i, j] = A[i, i] * A[j, j] * A[i, j]", "                                    if not sd:\n                                        A[i, j] = A[i, i] * A[j, j] * A[i, j]"), 'A7', 'SD and VARIANCE forms swapped'),
+    Mutant('omega_square_first', O_, text_edit("                    A = flattened_to_symmetric(inits)\n", "                    A = flattened_to_symmetric(inits)\n                    if sd:\n                        np.fill_diagonal(A, A.diagonal() ** 2)\n"), 'A7', 'diagonal squared before correlations are converted'),
+    Mutant('omega_chol_transposed', O_, text_edit("A = L @ L.T", "A = L.T @ L"), 'A7', 'L^T L'),
+    Mutant('omega_diag_sd_not_squared', O_, text_edit("                if sd:\n                    init = init**2\n", ""), 'A7', 'SD on diagonal item kept as is'),
+    Mutant('if_fallthrough_per_block', C, text_edit("                    if pairs[-1][1] is not True:", "                    if blocks[-1][0] is not True:"), 'A8', 'fall-through decided per block'),
+    Mutant('if_skipped_branches_ignored', C, text_edit("                            skipped.append(logic)", "                            pass"), 'A8', 'non-assigning branches ignored'),
     Mutant('swap_k12_k21', A, edit_node('_compartmental_model', lambda n, seg: isinstance(n, ast.Tuple) and seg == 'k, k12, k21', lambda seg: 'k, k21, k12'), 'A1', 'unpacking order swapped'),
     Mutant('trans4_v1_for_v2', A, edit_node('_advan3_trans', lambda n, seg: isinstance(n, ast.Constant) and seg == "'V2'", lambda seg: "'V1'"), 'A1', 'K21 = Q/V1'),
     Mutant('advan4_flow_dir', A, text_edit('cb.add_flow(central, peripheral, k23)\n        cb.add_flow(peripheral, central, k32)', 'cb.add_flow(peripheral, central, k23)\n        cb.add_flow(central, peripheral, k32)'), 'A1', 'flow directions swapped'),
